@@ -4,6 +4,7 @@ mod anyshape;
 mod c01;
 mod c05;
 mod c06;
+mod c13;
 mod genr;
 mod rng;
 mod util;
@@ -24,6 +25,7 @@ fn main() {
         "c01" => c01::run(&args[2..]),
         "c06" => c06::run(&args[2..]),
         "c05" => c05::run(&args[2..]),
+        "c13" => c13::run(&args[2..]),
         other => {
             eprintln!("unknown property {other}");
             2
